@@ -11,7 +11,7 @@ LEVEL = "exploration"
 RULE = ("zeroamp: DynamicRFKickMap with all amplitudes zero (also modampl != 0 with modstep = 0 and vice versa) vs RFKickMap, both "
         "RF models, generated n, interpolation order, angle / voltages, grid extents and shifts, 1-10 applications; bitwise "
         "comparison of displacement fields and output grids; non-trivial = data not symmetric and angle >= 1e-3.  recorded: "
-        "generated amplitudes, noise (seeded through the guarded hook), steps, flush positions; non-trivial = >= 2 flushes, one "
+        "generated amplitudes, noise (seeded through the guarded hook), steps (1-120, one case in five 121-6000 on a small grid), flush positions; non-trivial = >= 2 flushes, one "
         "mid-sequence, and modulation or noise active.  cli: /RFKicks/data of real runs under several output cadences")
 ASSUMPTIONS = ["INOVESA_VERIF_PRNG_SEED hook makes the noise a pure function of the case"]
 TOLERANCES = {"zeroamp": "bitwise", "recorded_kick_rel": 2e-5, "pure_modulation_phase_abs": "2e-6*(1+k*modstep)"}
@@ -121,6 +121,8 @@ def run_recorded(case):
     cls = ["linear" if lin else "sinus", "noise" if (case["pspread"] or case["aspread"]) else "nonoise",
            "mod" if (case["modampl"] and case["modstep"]) else "nomod"]
     napply = case["napply"]
+    gaps = np.diff([0] + sorted(k for k in flush_at if k < napply) + [napply])
+    cls.append("gap>1000" if gaps.max() > 1000 else ("gap>100" if gaps.max() > 100 else "gap<=100"))
     for k in range(napply):
         if k in flush_at:
             p, cnt = s.map_dyn_past(dy)
@@ -165,14 +167,20 @@ def run_recorded(case):
 @st.composite
 def recorded_cases(draw):
     c = draw(common())
-    c["steps"] = draw(st.integers(1, 120))
+    # one case in five is a long run on a small grid: record buffers must not depend on the flush cadence
+    long = draw(st.integers(0, 4)) == 0
+    if long:
+        c["n"] = draw(st.integers(8, 12))
+        c["steps"] = draw(st.integers(121, 6000))
+    else:
+        c["steps"] = draw(st.integers(1, 120))
     noise = draw(st.booleans())
     c["pspread"] = gen.f32(draw(st.floats(1e-5, 1e-2))) if noise and draw(st.booleans()) else 0.0
     c["aspread"] = gen.f32(draw(st.floats(1e-6, 1e-3))) if noise and not c["pspread"] or (noise and draw(st.booleans())) else 0.0
     mod = draw(st.booleans()) or not noise
     c["modampl"] = gen.f32(draw(st.floats(1e-3, 0.3))) if mod else 0.0
     c["modstep"] = float(draw(st.floats(1e-3, 0.2))) if mod else 0.0
-    c["napply"] = draw(st.integers(1, c["steps"]))
+    c["napply"] = draw(st.integers(max(1, c["steps"] // 2), c["steps"])) if long else draw(st.integers(1, c["steps"]))
     c["flush_at"] = sorted(set(draw(st.lists(st.integers(0, c["napply"]), min_size=0, max_size=4))))
     c["double_flush"] = draw(st.booleans())
     c["prng"] = draw(st.integers(1, 2**31 - 1))
